@@ -47,7 +47,7 @@ Theorem C14_poisson_exact_optimal (F g : Z -> Q) (h p K lam L : Q) fuel r n c :
 Proof. exact (r_q_poisson_exact_optimal F g h p K lam L fuel r n c). Qed.
 
 (* (4) normal demand: r_q_cost = (K lam + I)/Q with I the number integrate.quad returned (quadrature itself: oracle) *)
-Theorem C14_normal_cost_def I Qn h p K lam sd L : 0 < Qn -> 0 < h -> 0 < p -> 0 < K -> 0 <= lam -> 0 <= sd -> 0 <= L ->
+Theorem C14_normal_cost_def I Qn h p K lam sd L : 0 < Qn -> 0 < h -> 0 < p -> 0 < K -> 0 < lam -> 0 < sd -> 0 < L ->
   r_q_cost I Qn h p K lam sd L = Ok ((K * lam + I) / Qn).
 Proof. exact (rq_cost_def_normal I Qn h p K lam sd L). Qed.
 
